@@ -13,7 +13,9 @@ def text_of(prog):
     lines = []
     probs = {"f": "0.3", "g": "0.6", "q": "0.2", "p": "0.7", "r": "0.4"}
     for c in prog:
-        if c["f"]:
+        if c["f"] and c["h"] == "t":
+            lines.append("t.")
+        elif c["f"]:
             lines.append("%s::%s." % (probs.get(c["h"], "0.5"), c["h"]))
         else:
             lines.append("%s :- %s." % (c["h"], ", ".join(("" if l["s"] == 1 else "\\+") + l["a"] for l in c["b"])))
@@ -22,13 +24,22 @@ def text_of(prog):
 
 def compare(h, r):
     """first difference between the model's behaviour h and the recorded real run r, or None"""
+    if h.get("err"):
+        # the model predicts that the engine raises: the real run must raise the same exception class
+        if not r.get("crash"):
+            return "model: engine raises %s; engine answered %s" % (h["err"], [x["key"] for x in r["results"]])
+        if r.get("error") != h["err"]:
+            return "model: engine raises %s; engine raised %s" % (h["err"], r.get("error"))
+        return None
+    if r.get("crash"):
+        return "engine raised %s: %s" % (r.get("error"), r.get("msg"))
     ml, rl = h["log"], r["log"]
     for i, (a, b) in enumerate(zip(ml, rl)):
         if any(a[k] != b[k] for k in ("t", "k", "p", "a", "node", "last")):
             return "message %d: model %s, engine %s" % (i + 1, a, b)
     if len(ml) != len(rl):
         return "model pops %d messages, engine %d" % (len(ml), len(rl))
-    mres = [x if x != NORES else -999 for x in h["results"]]
+    mres = [x if x != NORES else FKEY for x in h["results"]]      # a query without a result is named FALSE by ground()
     rres = [x["key"] for x in r["results"]]
     if mres != rres:
         return "query keys: model %s, engine %s" % (mres, rres)
@@ -58,18 +69,24 @@ def replay(ctx, cfgs, export_cfg, timeout=3000):
                       nproc=ctx.nproc, timeout=600, chunksize=1)
     diffs = []
     n = 0
+    # behaviours that differ only in the order in which a cycle's completion messages were delivered (a Python set is
+    # iterated there) share program, queries and schedule: the real run must equal ONE of them
+    groups = {}
+    for i, h in enumerate(H):
+        groups.setdefault(json.dumps([h["prog"], h["queries"], h["sched"]], sort_keys=True), []).append(i)
+    done = set()
+    byid = {}
     for r in res:
         if r.get("error"):
             raise MachineryError("engine_traces failed: %s" % r)
         for o in r["results"]:
-            n += 1
-            h = H[o["id"]]
-            if o.get("crash"):
-                diffs.append((h, o, "engine raised %s: %s" % (o.get("error"), o.get("msg"))))
-                continue
-            d = compare(h, o)
-            if d:
-                diffs.append((h, o, d))
+            byid[o["id"]] = o
+    for key, ids in groups.items():
+        n += 1
+        o = byid[ids[0]]
+        ds = [compare(H[i], o) for i in ids]
+        if all(ds):
+            diffs.append((H[ids[0]], o, ds[0] + (" (and %d more model behaviours with other completion orders)" % (len(ids) - 1) if len(ids) > 1 else "")))
     cov["spec_behaviours_replayed_on_impl"] = n
     cov["messages_compared"] = sum(len(h["log"]) for h in H)
     cov["behaviours_where_impl_differs_from_model"] = len(diffs)
